@@ -68,3 +68,38 @@ class DialectFieldsOnlyInDocumentedModes:
 
     def spec(case, self_, field):
         return field == "table_name"
+
+
+@contract
+class ToDictKeepsRequiredKeys:
+    """to_dict: the nine documented table keys are present in every mode (dataset for schema in BigQuery mode), each holding
+    the very object the table holds (so later ALTER statements stay visible in an emitted table)"""
+    fn = "output.base_data.BaseData.to_dict"
+    props = ["C12", "C10", "C04"]
+    cases = {"to_dict in " + m: dict(mode=m) for m in MODES}
+
+    def build(G, case):
+        import dataclasses
+        from simple_ddl_parser.output.table_data import TableData
+        mode = case["mode"]
+        cls = TableData.get_dialect_class({"output_mode": mode})
+        attrs = {}
+        for f in dataclasses.fields(cls):
+            if f.default is not dataclasses.MISSING:
+                attrs[f.name] = f.default
+            elif f.default_factory is not dataclasses.MISSING:
+                attrs[f.name] = f.default_factory()
+        attrs.update(table_name=G.str("t"), output_mode=mode, columns=G.oseq("cols", elem=lambda g, n: {"name": g.str(n)}), primary_key=G.oseq("pk", elem=lambda g, n: g.str(n)),
+                     alter={}, checks=[], index=[], partitioned_by=[], tablespace=None, table_properties={},
+                     init_data=G.record({"table_name": G.str("t")}, {}))
+        attrs["dataset" if mode == "bigquery" else "schema"] = G.str("schema")
+        return dict(args=[G.obj(cls, **attrs)])
+
+    def ensures(case, old, new, result):
+        o = new[0]
+        sk = "dataset" if case["mode"] == "bigquery" else "schema"
+        for k in ["table_name", "primary_key", "columns", "alter", "checks", "index", "partitioned_by", "tablespace"]:
+            if k not in result:
+                return False
+        return (sk in result and result["columns"] is o.columns and result["alter"] is o.alter and result["index"] is o.index
+                and result["primary_key"] is o.primary_key and result["table_name"] == o.table_name and result[sk] == getattr(o, sk))
